@@ -51,6 +51,44 @@ class Tok:
         return (Tok, self.c)
 
 
+class KeyedVal:
+    """A configuration value whose ``==`` looks at its key only - like
+    edb.server.config.types.CompositeConfigType, which compares the exclusive fields and nothing
+    else: two values can be equal and still be different settings.  While the simulator's own
+    oracles compare (``strict``), the content counts as well."""
+    __slots__ = ('key', 'content')
+    strict = False
+
+    def __init__(self, key, content):
+        self.key, self.content = key, content
+
+    def __eq__(self, o):
+        return (isinstance(o, KeyedVal) and o.key == self.key
+                and (not KeyedVal.strict or o.content == self.content))
+
+    def __hash__(self):
+        return hash(self.key)
+
+    def __repr__(self):
+        return f'K({self.key!r}:{self.content!r})'
+
+    def __reduce__(self):
+        return (KeyedVal, (self.key, self.content))
+
+
+class _Strict:
+    """with STRICT: ... - the oracle compares configuration values by content."""
+
+    def __enter__(self):
+        self.prev, KeyedVal.strict = KeyedVal.strict, True
+
+    def __exit__(self, *a):
+        KeyedVal.strict = self.prev
+
+
+STRICT = _Strict()
+
+
 class InjectedFault(MemoryError):
     """A failing allocation / corrupted byte inside (un)pickling."""
 
@@ -234,6 +272,7 @@ class World:
         c['think'] = t.pick([5, 0, 30], 'think')
         c['frag'] = t.draw(3, 'frag') == 2               # deliver replies in two chunks
         faulty = st != 'nofault'
+        self.keyed = st == 'keyed'
         c['pcrash'] = t.pick([0, 3, 10], 'pcrash') if faulty and t.draw(2, 'f_crash') else 0
         c['nidlecrash'] = t.draw(3, 'nidlecrash') if faulty and t.draw(3, 'f_idlecrash') == 2 else 0
         c['pcerr'] = t.pick([0, 10, 30], 'pcerr') if faulty and t.draw(2, 'f_cerr') else 0
@@ -253,6 +292,8 @@ class World:
         # stratum cancel_batch: a worker whose callers gave up has several requests waiting in its
         # socket; one recv() hands all of them to the worker loop, which serves them back to back
         c['batch'] = st == 'cancel_batch'
+        # stratum keyed: database / instance configuration values compare equal by key only
+        c['keyed'] = st == 'keyed'
         if c['batch']:
             c['pcancel'] = t.pick([25, 40, 60], 'pcancel_batch')
             c['svc'] = t.pick([20, 40], 'svc_batch')
@@ -270,9 +311,9 @@ class World:
         P = self.mods['pool']
         amsg = self.mods['amsg']
         wp = self.mods['worker_proc']
-        memo = getattr(P, '_pickle_memoized', None)
-        if memo is not None and hasattr(memo, 'cache_clear'):
-            memo.cache_clear()      # process-global cache: must not leak between runs
+        for memo in list(vars(P).values()):
+            if callable(memo) and hasattr(memo, 'cache_clear') and hasattr(memo, 'cache_info'):
+                memo.cache_clear()      # process-global caches (pickle memoization): must not leak between runs
 
         # seams ---------------------------------------------------------------
         self.pool_pickle = self.ci.PickleProxy('pool', self.pickle_hook)
@@ -435,6 +476,11 @@ class World:
         self.version['v'] += 1
         return self.version['v']
 
+    keyed = False
+
+    def cfgval(self, v):
+        return KeyedVal('setting', v) if self.keyed else v
+
     nmut = 0
 
     def mutate(self, tn):
@@ -458,7 +504,7 @@ class World:
             self.ev('mut_rc', tn)
         elif which == 2:
             H[tn, 'dc'].append(db['dc'])
-            db['dc'] = immutables.Map({'x': v}) if t.draw(3, 'dc_empty') else immutables.Map()
+            db['dc'] = immutables.Map({'x': self.cfgval(v)}) if t.draw(3, 'dc_empty') else immutables.Map()
             self.ev('mut_dc', tn)
         elif which == 3:
             H[tn, 'global'].append(s['global'])
@@ -466,7 +512,7 @@ class World:
             self.ev('mut_global', tn)
         elif which == 4:
             H[tn, 'sys'].append(s['sys'])
-            s['sys'] = immutables.Map({'s': v}) if t.draw(4, 'sys_empty') else immutables.Map()
+            s['sys'] = immutables.Map({'s': self.cfgval(v)}) if t.draw(4, 'sys_empty') else immutables.Map()
             self.ev('mut_sys', tn)
         elif which == 5:
             # revert one component to an object used before (same identity)
@@ -484,7 +530,7 @@ class World:
         elif which == 6:
             # several at once
             db['us'] = real_pickle.dumps(Tok('U', tn, v))
-            db['dc'] = immutables.Map({'x': v})
+            db['dc'] = immutables.Map({'x': self.cfgval(v)})
             s['global'] = real_pickle.dumps(Tok('G', tn, v))
             self.ev('mut_multi', tn)
         elif which == 7 and len(names) < 4:
@@ -695,6 +741,10 @@ class World:
         return (real_pickle.loads(snap[1]), real_pickle.loads(snap[2]), snap[3], snap[4], snap[5])
 
     def check_echo(self, tag, method, echo, snap, skip_rc=False):
+        with STRICT:
+            return self._check_echo(tag, method, echo, snap, skip_rc)
+
+    def _check_echo(self, tag, method, echo, snap, skip_rc=False):
         echo = tuple(echo)
         exp_state = self.expected(snap)
         if skip_rc:
@@ -747,6 +797,10 @@ class World:
 
     # -- E3: belief == actual -----------------------------------------------------------
     def audit(self, when):
+        with STRICT:
+            return self._audit(when)
+
+    def _audit(self, when):
         pool = self.pool
         try:
             workers = list(pool._workers.items())
